@@ -170,6 +170,11 @@ CYCLES = {
     "deadlines": "(bench (fn [] (try (ev/with-deadline 0.001 (ev/sleep 0.02)) ([e] nil)) (ev/with-deadline 0.02 (ev/sleep 0))))",
     "cancelled-thread-wait": "(bench (fn [] (def f (ev/spawn (try (ev/thread (fn [&] (os/sleep 0.005))) ([e] nil)))) (ev/sleep 0.001) (ev/cancel f :x) (ev/sleep 0.01)))",
     "threaded-abstract-roundtrip": "(def to (ev/thread-chan 4)) (def back (ev/thread-chan 4)) (ev/thread (fn [&] (forever (def m (ev/take to)) (when (= m :stop) (break)) (ev/give back m) (gccollect))) nil :n) (bench (fn [] (def fresh (ev/thread-chan 1)) (ev/give fresh (string/repeat \"x\" 1000)) (ev/give to fresh) (def same (ev/take back)) (ev/take same)))",
+    # waits on a thread channel root the waiting fiber; every way the wait can end must drop that root
+    "thread-chan-cancelled-take-close": "(bench (fn [] (def ch (ev/thread-chan 1)) (def f (ev/spawn (try (ev/take ch) ([e] nil)))) (ev/sleep 0) (ev/cancel f :x) (ev/sleep 0) (ev/chan-close ch)))",
+    "thread-chan-deadline-take-close": "(bench (fn [] (def ch (ev/thread-chan 1)) (def [r w] (os/pipe)) (def f (ev/spawn (def keep [r w]) (try (ev/with-deadline 0.001 (ev/take ch)) ([e] nil)))) (ev/sleep 0.003) (ev/chan-close ch)))",
+    "thread-chan-cancelled-give-close": "(bench (fn [] (def ch (ev/thread-chan 1)) (def f (ev/spawn (try (do (ev/give ch 1) (ev/give ch 2)) ([e] nil)))) (ev/sleep 0) (ev/cancel f :x) (ev/sleep 0) (ev/chan-close ch)))",
+    "thread-chan-cancelled-take-then-served": "(bench (fn [] (def ch (ev/thread-chan 1)) (def f (ev/spawn (try (ev/take ch) ([e] nil)))) (ev/sleep 0) (ev/cancel f :x) (ev/sleep 0) (ev/give ch 1) (ev/take ch)))",
     "select-timeouts": "(def c1 (ev/chan)) (def c2 (ev/chan)) (bench (fn [] (ev/spawn (ev/give c2 1)) (ev/select c1 c2)))",
     "gather": "(bench (fn [] (ev/gather (ev/sleep 0) (+ 1 2) (ev/sleep 0.001))))",
     "marshal-roundtrip": "(bench (fn [] (unmarshal (marshal [@{:a (fn [] 1)} (ev/chan 1)] make-image-dict) load-image-dict)))",
